@@ -304,7 +304,8 @@ class BedHarness:
         if not kw["assignment"]:
             ra = None
         else:
-            ra = types.SimpleNamespace(read_id=kw["name"], mapped_strand=kw["strand"],
+            # multimapper: attribute of every real ReadAssignment (False by default); read by BEDPrinter after the c05edge repair
+            ra = types.SimpleNamespace(read_id=kw["name"], mapped_strand=kw["strand"], multimapper=False,
                                        exons=[tuple(e) for e in kw["exons"]],
                                        corrected_exons=[tuple(e) for e in kw["corrected"]])
             ra.assignment_type = (IA.ReadAssignmentType.unique if kw["accepts"] else IA.ReadAssignmentType.ambiguous) \
